@@ -65,4 +65,9 @@ theorem src_renamer_independent_of_storage_order :
 (no `join="override"`, which would pair samples by position) -/
 theorem src_concat_aligns_by_label : Gen.concatenatorConcatKwargs = [("dim", "self.feature_name")] := by decide
 
+/-- source obligation: the PCA pre-reduction keeps the deterministic sign convention of its basis (it does not switch `flip_signs`
+off), so the orientation of an intermediate basis cannot leak into the signs of the final modes -/
+theorem src_pca_keeps_sign_convention : Gen.pcaToSVD.lookup "flip_signs" = none ∧ Gen.svdWrapperToSVD.lookup "flip_signs" = some "self.flip_signs" := by
+  decide
+
 end C07
